@@ -220,8 +220,10 @@ class Functor(pg_object.Object, utils.Functor):
         default_args.add(arg_name)
         non_default_args.discard(arg_name)
 
-    if signature.varargs and not varargs:
+    if signature.varargs and not bound_kwargs.get(signature.varargs.name):
+      # No (or empty) variable positional arguments, however they were passed.
       default_args.add(signature.varargs.name)
+      non_default_args.discard(signature.varargs.name)
 
     super().__init__(allow_partial=True,
                      root_path=root_path,
